@@ -71,7 +71,7 @@ def CheckCase.setEnv (c : CheckCase) : SetEnv × (StateView → CheckEnv) × Sta
   let mkCe := fun (post : StateView) => ({
     program := program,
     baseEnv := fun ops => {
-      ops := ops, cost := fun _ => 1, limit := u64Max, solutions := [], index := 0, pre := pre, post := post,
+      ops := ops, cost := fun _ => Consts.checkGasCost, limit := Consts.checkGasLimit, solutions := [], index := 0, pre := pre, post := post,
       sha256 := Sha256.sha256, edVerify := fun _ _ _ => some false, secpRecover := fun _ _ _ => .badSig, maxBreadth := 4096 },
     fuel := 2000000 } : CheckEnv)
   let predicate := fun ca pa => match c.preds.find? (fun e => e.1 == ca && e.2.1 == pa) with
